@@ -54,6 +54,11 @@ func NormalForm(P *core.Program) (*core.Program, int, []string) {
 	if err != nil || P2 == nil {
 		return P, 0, append(log, fmt.Sprint("normal form failed: ", err))
 	}
+	if n > 0 {
+		if d := P2.PruneUncalled(func(key string) bool { return !bl[key] }); d > 0 {
+			log = append(log, fmt.Sprintf("%d new helper functions left without callers are not subjects", d))
+		}
+	}
 	return P2, n, log
 }
 
